@@ -8,191 +8,239 @@ Import ListNotations.
 Open Scope string_scope.
 
 Lemma skel_tryCommitPatch_ok : skel_tryCommitPatch =
-  [Call "adjust"; Call "buildRuleList"; Assign "ruleList" ":= buildRuleList(patch)"; IfE "err != nil" [Call "adjust"; Ret] []; Call "trim"; Call "savePatch"; IfE "err != nil" [Call "adjust"; Ret] []; Call "commit"; Assign "m.ruleList" "= ruleList"; Ret].
+  [Call "adjust"; Call "buildRuleList"; IfE "_v3 != nil" [Call "adjust"; Ret] []; Call "trim"; Call "savePatch"; IfE "_v3 != nil" [Call "adjust"; Ret] []; Call "commit"; Assign "_v0.ruleList" "= _v2"; Ret].
 Proof. reflexivity. Qed.
 
 Lemma skel_savePatch_ok : skel_savePatch =
-  [ForE [IfE "r == nil" [Call "DeleteRule"] [Call "SaveRule"]; IfE "err != nil" [Ret] []]; ForE [Call "isDefault"; IfE "g.isDefault()" [Call "DeleteRuleGroup"] [Call "SaveRuleGroup"]; IfE "err != nil" [Ret] []]; Ret].
+  [ForE [IfE "_v4 == nil" [Call "DeleteRule"] [Call "SaveRule"]; IfE "_v2 != nil" [Ret] []]; ForE [Call "isDefault"; IfE "_v6.isDefault()" [Call "DeleteRuleGroup"] [Call "SaveRuleGroup"]; IfE "_v2 != nil" [Ret] []]; Ret].
 Proof. reflexivity. Qed.
 
 Lemma skel_Initialize_ok : skel_Initialize =
-  [Lock "m"; DeferUnlock "m"; IfE "m.initialized" [Ret] []; Call "loadRules"; IfE "err != nil" [Ret] []; Call "loadGroups"; IfE "err != nil" [Ret] []; IfE "len(m.ruleConfig.rules) == 0" [Call "SaveRule"; IfE "err != nil" [Ret] []; Call "setRule"] []; Call "adjust"; Call "buildRuleList"; Assign "ruleList" ":= buildRuleList(m.ruleConfig)"; IfE "err != nil" [Ret] []; Assign "m.ruleList" "= ruleList"; Assign "m.initialized" "= true"; Ret].
+  [Lock "_v0"; DeferUnlock "_v0"; IfE "_v0.initialized" [Ret] []; Call "loadRules"; IfE "_v3 != nil" [Ret] []; Call "loadGroups"; IfE "_v4 != nil" [Ret] []; IfE "len(_v0.ruleConfig.rules) == 0" [Call "SaveRule"; IfE "_v6 != nil" [Ret] []; Call "setRule"] []; Call "adjust"; Call "buildRuleList"; IfE "_v8 != nil" [Ret] []; Assign "_v0.ruleList" "= _v7"; Assign "_v0.initialized" "= true"; Ret].
 Proof. reflexivity. Qed.
 
 Lemma skel_loadRules_ok : skel_loadRules =
-  [DeferE [IfE "err != nil" [Ret] []; Call "adjustRule"; IfE "err != nil" [Ret] []; IfE "ok" [Ret] []]; Call "LoadRules"; IfE "err != nil" [Ret] []; ForE [Call "SaveRule"; IfE "err != nil" [Ret] []]; ForE [Call "DeleteRule"; IfE "err != nil" [Ret] []]; Ret].
+  [DeferE [IfE "_v7 != nil" [Ret] []; Call "adjustRule"; IfE "_v8 != nil" [Ret] []; IfE "_v9" [Ret] []]; Call "LoadRules"; IfE "_v3 != nil" [Ret] []; ForE [Call "SaveRule"; IfE "_v3 != nil" [Ret] []]; ForE [Call "DeleteRule"; IfE "_v3 != nil" [Ret] []]; Ret].
 Proof. reflexivity. Qed.
 
 Lemma skel_loadGroups_ok : skel_loadGroups =
-  [DeferE [IfE "err != nil" [Ret] []]; Call "LoadRuleGroups"; Ret].
+  [DeferE [IfE "_v4 != nil" [Ret] []]; Call "LoadRuleGroups"; Ret].
 Proof. reflexivity. Qed.
 
 Lemma skel_SetRule_ok : skel_SetRule =
-  [Call "adjustRule"; IfE "err != nil" [Ret] []; Lock "m"; DeferUnlock "m"; Call "beginPatch"; Call "setRule"; Call "tryCommitPatch"; IfE "err != nil" [Ret] []; Ret].
+  [Call "adjustRule"; IfE "_v2 != nil" [Ret] []; Lock "_v0"; DeferUnlock "_v0"; Call "beginPatch"; Call "setRule"; Call "tryCommitPatch"; IfE "_v4 != nil" [Ret] []; Ret].
 Proof. reflexivity. Qed.
 
 Lemma skel_DeleteRule_ok : skel_DeleteRule =
-  [Lock "m"; DeferUnlock "m"; Call "beginPatch"; Call "deleteRule"; Call "tryCommitPatch"; IfE "err != nil" [Ret] []; Ret].
+  [Lock "_v0"; DeferUnlock "_v0"; Call "beginPatch"; Call "deleteRule"; Call "tryCommitPatch"; IfE "_v4 != nil" [Ret] []; Ret].
 Proof. reflexivity. Qed.
 
 Lemma skel_SetRules_ok : skel_SetRules =
-  [Lock "m"; DeferUnlock "m"; Call "beginPatch"; ForE [Call "adjustRule"; IfE "err != nil" [Ret] []; Call "setRule"]; Call "tryCommitPatch"; IfE "err != nil" [Ret] []; Ret].
+  [Lock "_v0"; DeferUnlock "_v0"; Call "beginPatch"; ForE [Call "adjustRule"; IfE "_v4 != nil" [Ret] []; Call "setRule"]; Call "tryCommitPatch"; IfE "_v5 != nil" [Ret] []; Ret].
 Proof. reflexivity. Qed.
 
 Lemma skel_Batch_ok : skel_Batch =
-  [ForE [SwitchE [[Call "adjustRule"; IfE "err != nil" [Ret] []]]]; Lock "m"; DeferUnlock "m"; Call "beginPatch"; ForE [SwitchE [[Call "setRule"]; [IfE "!t.DeleteByIDPrefix" [Call "deleteRule"] [DeferE [IfE "r.GroupID == t.GroupID && strings.HasPrefix(r.ID, t.ID)" [Call "deleteRule"] []]; Call "iterateRules"]]]]; Call "tryCommitPatch"; IfE "err != nil" [Ret] []; Ret].
+  [ForE [SwitchE [[Call "adjustRule"; IfE "_v3 != nil" [Ret] []]]]; Lock "_v0"; DeferUnlock "_v0"; Call "beginPatch"; ForE [SwitchE [[Call "setRule"]; [IfE "!_v5.DeleteByIDPrefix" [Call "deleteRule"] [DeferE [IfE "_v6.GroupID == _v5.GroupID && strings.HasPrefix(_v6.ID, _v5.ID)" [Call "deleteRule"] []]; Call "iterateRules"]]]]; Call "tryCommitPatch"; IfE "_v7 != nil" [Ret] []; Ret].
 Proof. reflexivity. Qed.
 
 Lemma skel_SetRuleGroup_ok : skel_SetRuleGroup =
-  [Lock "m"; DeferUnlock "m"; Call "beginPatch"; Call "setGroup"; Call "tryCommitPatch"; IfE "err != nil" [Ret] []; Ret].
+  [Lock "_v0"; DeferUnlock "_v0"; Call "beginPatch"; Call "setGroup"; Call "tryCommitPatch"; IfE "_v3 != nil" [Ret] []; Ret].
 Proof. reflexivity. Qed.
 
 Lemma skel_DeleteRuleGroup_ok : skel_DeleteRuleGroup =
-  [Lock "m"; DeferUnlock "m"; Call "beginPatch"; Call "deleteGroup"; Call "tryCommitPatch"; IfE "err != nil" [Ret] []; Ret].
+  [Lock "_v0"; DeferUnlock "_v0"; Call "beginPatch"; Call "deleteGroup"; Call "tryCommitPatch"; IfE "_v3 != nil" [Ret] []; Ret].
 Proof. reflexivity. Qed.
 
 Lemma skel_SetAllGroupBundles_ok : skel_SetAllGroupBundles =
-  [Lock "m"; DeferUnlock "m"; Call "beginPatch"; DeferE [ForE [IfE "g.ID == a" [Ret] []]; Ret]; ForE [IfE "override || matchID(k[0])" [Call "deleteRule"] []]; ForE [IfE "override || matchID(id)" [Call "deleteGroup"] []]; ForE [Call "setGroup"; ForE [Call "adjustRule"; IfE "err != nil" [Ret] []; Call "setRule"]]; Call "tryCommitPatch"; IfE "err != nil" [Ret] []; Ret].
+  [Lock "_v0"; DeferUnlock "_v0"; Call "beginPatch"; DeferE [ForE [IfE "_v6.ID == _v5" [Ret] []]; Ret]; ForE [IfE "_v2 || _v4(_v7[0])" [Call "deleteRule"] []]; ForE [IfE "_v2 || _v4(_v8)" [Call "deleteGroup"] []]; ForE [Call "setGroup"; ForE [Call "adjustRule"; IfE "_v11 != nil" [Ret] []; Call "setRule"]]; Call "tryCommitPatch"; IfE "_v12 != nil" [Ret] []; Ret].
 Proof. reflexivity. Qed.
 
 Lemma skel_SetGroupBundle_ok : skel_SetGroupBundle =
-  [Lock "m"; DeferUnlock "m"; Call "beginPatch"; IfE "ok" [ForE [IfE "k[0] == group.ID" [Call "deleteRule"] []]] []; Call "setGroup"; ForE [Call "adjustRule"; IfE "err != nil" [Ret] []; Call "setRule"]; Call "tryCommitPatch"; IfE "err != nil" [Ret] []; Ret].
+  [Lock "_v0"; DeferUnlock "_v0"; Call "beginPatch"; IfE "_v3" [ForE [IfE "_v4[0] == _v1.ID" [Call "deleteRule"] []]] []; Call "setGroup"; ForE [Call "adjustRule"; IfE "_v6 != nil" [Ret] []; Call "setRule"]; Call "tryCommitPatch"; IfE "_v7 != nil" [Ret] []; Ret].
 Proof. reflexivity. Qed.
 
 Lemma skel_DeleteGroupBundle_ok : skel_DeleteGroupBundle =
-  [Lock "m"; DeferUnlock "m"; DeferE [Ret]; IfE "regex" [IfE "err != nil" [Ret] []] []; Call "beginPatch"; ForE [IfE "matchID(k[0])" [Call "deleteRule"] []]; ForE [IfE "matchID(g.ID)" [Call "deleteGroup"] []]; Call "tryCommitPatch"; IfE "err != nil" [Ret] []; Ret].
+  [Lock "_v0"; DeferUnlock "_v0"; DeferE [Ret]; IfE "_v2" [IfE "_v6 != nil" [Ret] []] []; Call "beginPatch"; ForE [IfE "_v3(_v8[0])" [Call "deleteRule"] []]; ForE [IfE "_v3(_v9.ID)" [Call "deleteGroup"] []]; Call "tryCommitPatch"; IfE "_v10 != nil" [Ret] []; Ret].
+Proof. reflexivity. Qed.
+
+Lemma skel_GetRule_ok : skel_GetRule =
+  [RLock "_v0"; DeferRUnlock "_v0"; Ret].
+Proof. reflexivity. Qed.
+
+Lemma skel_GetSplitKeys_ok : skel_GetSplitKeys =
+  [RLock "_v0"; DeferRUnlock "_v0"; Ret].
+Proof. reflexivity. Qed.
+
+Lemma skel_GetAllRules_ok : skel_GetAllRules =
+  [RLock "_v0"; DeferRUnlock "_v0"; Ret].
+Proof. reflexivity. Qed.
+
+Lemma skel_GetRulesByGroup_ok : skel_GetRulesByGroup =
+  [RLock "_v0"; DeferRUnlock "_v0"; Ret].
+Proof. reflexivity. Qed.
+
+Lemma skel_GetRulesByKey_ok : skel_GetRulesByKey =
+  [RLock "_v0"; DeferRUnlock "_v0"; Ret].
+Proof. reflexivity. Qed.
+
+Lemma skel_GetRulesForApplyRegion_ok : skel_GetRulesForApplyRegion =
+  [RLock "_v0"; DeferRUnlock "_v0"; Ret].
+Proof. reflexivity. Qed.
+
+Lemma skel_GetRuleGroup_ok : skel_GetRuleGroup =
+  [RLock "_v0"; DeferRUnlock "_v0"; Ret].
+Proof. reflexivity. Qed.
+
+Lemma skel_GetRuleGroups_ok : skel_GetRuleGroups =
+  [RLock "_v0"; DeferRUnlock "_v0"; DeferE [Ret]; Ret].
+Proof. reflexivity. Qed.
+
+Lemma skel_GetAllGroupBundles_ok : skel_GetAllGroupBundles =
+  [RLock "_v0"; DeferRUnlock "_v0"; DeferE [Ret]; Ret].
+Proof. reflexivity. Qed.
+
+Lemma skel_GetGroupBundle_ok : skel_GetGroupBundle =
+  [RLock "_v0"; DeferRUnlock "_v0"; Ret].
+Proof. reflexivity. Qed.
+
+Lemma skel_IsInitialized_ok : skel_IsInitialized =
+  [RLock "_v0"; DeferRUnlock "_v0"; Ret].
+Proof. reflexivity. Qed.
+
+Lemma skel_SetKeyType_ok : skel_SetKeyType =
+  [Lock "_v0"; DeferUnlock "_v0"; Assign "_v0.keyType" "= _v1"; Ret].
 Proof. reflexivity. Qed.
 
 Lemma compare_rule_cases_ok : compare_rule_cases =
-  ["a.groupIndex() < b.groupIndex() => return -1"; "a.groupIndex() > b.groupIndex() => return 1"; "a.GroupID < b.GroupID => return -1"; "a.GroupID > b.GroupID => return 1"; "a.Index < b.Index => return -1"; "a.Index > b.Index => return 1"; "a.ID < b.ID => return -1"; "a.ID > b.ID => return 1"; "default => return 0"].
+  ["_v0.groupIndex() < _v1.groupIndex() => return -1"; "_v0.groupIndex() > _v1.groupIndex() => return 1"; "_v0.GroupID < _v1.GroupID => return -1"; "_v0.GroupID > _v1.GroupID => return 1"; "_v0.Index < _v1.Index => return -1"; "_v0.Index > _v1.Index => return 1"; "_v0.ID < _v1.ID => return -1"; "_v0.ID > _v1.ID => return 1"; "default => return 0"].
 Proof. reflexivity. Qed.
 
 Lemma body_Rule_groupIndex_ok : body_Rule_groupIndex =
-  ["if r.group != nil { return r.group.Index }"; "return 0"].
+  ["if _v0.group != nil { return _v0.group.Index }"; "return 0"].
 Proof. reflexivity. Qed.
 
 Lemma body_RuleGroup_isDefault_ok : body_RuleGroup_isDefault =
-  ["return g.Index == 0 && !g.Override"].
+  ["return _v0.Index == 0 && !_v0.Override"].
 Proof. reflexivity. Qed.
 
 Lemma body_prepareRulesForApply_ok : body_prepareRulesForApply =
-  ["var res []*Rule"; "var i, j int"; "for i = 1; i < len(rules); i++ { if rules[j].GroupID != rules[i].GroupID { if rules[i].group != nil && rules[i].group.Override { res = res[:0] } else { res = append(res, rules[j:i]...) } j = i } if rules[i].Override { j = i } }"; "return append(res, rules[j:]...)"].
+  ["var _v1 []*Rule"; "var _v2, _v3 int"; "for _v2 = 1; _v2 < len(_v0); _v2++ { if _v0[_v3].GroupID != _v0[_v2].GroupID { if _v0[_v2].group != nil && _v0[_v2].group.Override { _v1 = _v1[:0] } else { _v1 = append(_v1, _v0[_v3:_v2]...) } _v3 = _v2 } if _v0[_v2].Override { _v3 = _v2 } }"; "return append(_v1, _v0[_v3:]...)"].
 Proof. reflexivity. Qed.
 
 Lemma body_sortRules_ok : body_sortRules =
-  ["sort.Slice(rules, func(i, j int) bool { return compareRule(rules[i], rules[j]) < 0 })"].
+  ["sort.Slice(_v0, func(_v1, _v2 int) bool { return compareRule(_v0[_v1], _v0[_v2]) < 0 })"].
 Proof. reflexivity. Qed.
 
 Lemma body_Rule_Key_ok : body_Rule_Key =
-  ["return [2]string{r.GroupID, r.ID}"].
+  ["return [2]string{_v0.GroupID, _v0.ID}"].
 Proof. reflexivity. Qed.
 
 Lemma body_Rule_StoreKey_ok : body_Rule_StoreKey =
-  ["return hex.EncodeToString([]byte(r.GroupID)) + ""-"" + hex.EncodeToString([]byte(r.ID))"].
+  ["return hex.EncodeToString([]byte(_v0.GroupID)) + ""-"" + hex.EncodeToString([]byte(_v0.ID))"].
 Proof. reflexivity. Qed.
 
 Lemma body_sortedRules_insertRule_ok : body_sortedRules_insertRule =
-  ["i := sort.Search(len(sr.rules), func(i int) bool { return compareRule(sr.rules[i], rule) > 0 })"; "if i == len(sr.rules) { sr.rules = append(sr.rules, rule) return }"; "sr.rules = append(sr.rules[:i+1], sr.rules[i:]...)"; "sr.rules[i] = rule"].
+  ["_v2 := sort.Search(len(_v0.rules), func(_v3 int) bool { return compareRule(_v0.rules[_v3], _v1) > 0 })"; "if _v2 == len(_v0.rules) { _v0.rules = append(_v0.rules, _v1) return }"; "_v0.rules = append(_v0.rules[:_v2+1], _v0.rules[_v2:]...)"; "_v0.rules[_v2] = _v1"].
 Proof. reflexivity. Qed.
 
 Lemma body_sortedRules_deleteRule_ok : body_sortedRules_deleteRule =
-  ["for i, r := range sr.rules { if r.Key() == rule.Key() { sr.rules = append(sr.rules[:i], sr.rules[i+1:]...) return } }"].
+  ["for _v2, _v3 := range _v0.rules { if _v3.Key() == _v1.Key() { _v0.rules = append(_v0.rules[:_v2], _v0.rules[_v2+1:]...) return } }"].
 Proof. reflexivity. Qed.
 
 Lemma body_checkApplyRules_ok : body_checkApplyRules =
-  ["leaderCount := 0"; "voterCount := 0"; "for _, rule := range rules { if rule.Role == Leader { leaderCount += rule.Count } else if rule.Role == Voter { voterCount += rule.Count } if leaderCount > 1 { return errors.New(""multiple leader replicas"") } }"; "if (leaderCount + voterCount) < 1 { return errors.New(""needs at least one leader or voter"") }"; "return nil"].
+  ["_v1 := 0"; "_v2 := 0"; "for _, _v3 := range _v0 { if _v3.Role == Leader { _v1 += _v3.Count } else if _v3.Role == Voter { _v2 += _v3.Count } if _v1 > 1 { return errors.New(""multiple leader replicas"") } }"; "if (_v1 + _v2) < 1 { return errors.New(""needs at least one leader or voter"") }"; "return nil"].
 Proof. reflexivity. Qed.
 
 Lemma body_buildRuleList_ok : body_buildRuleList =
-  ["var points []splitPoint"; "rules.iterateRules(func(r *Rule) { points = append(points, splitPoint{ typ: tStart, key: r.StartKey, rule: r, }) if len(r.EndKey) > 0 { points = append(points, splitPoint{ typ: tEnd, key: r.EndKey, rule: r, }) } })"; "if len(points) == 0 { return ruleList{}, errs.ErrBuildRuleList.FastGenByArgs(""no rule left"") }"; "sort.Slice(points, func(i, j int) bool { return bytes.Compare(points[i].key, points[j].key) < 0 })"; "if len(points[0].key) > 0 { return ruleList{}, errs.ErrBuildRuleList.FastGenByArgs(fmt.Sprintf(""no rule for range {%s, %s}"", """", strings.ToUpper(hex.EncodeToString(points[0].key)))) }"; "var rl ruleList"; "var sr sortedRules"; "for i, p := range points { switch p.typ { case tStart: sr.insertRule(p.rule) case tEnd: sr.deleteRule(p.rule) } if i == len(points)-1 || !bytes.Equal(p.key, points[i+1].key) { var endKey []byte if i != len(points)-1 { endKey = points[i+1].key } rr := sr.rules if len(rr) == 0 { return ruleList{}, errs.ErrBuildRuleList.FastGenByArgs(fmt.Sprintf(""no rule for range {%s, %s}"", strings.ToUpper(hex.EncodeToString(p.key)), strings.ToUpper(hex.EncodeToString(endKey)))) } if i != len(points)-1 { rr = append(rr[:0:0], rr...) } arr := prepareRulesForApply(rr) err := checkApplyRules(arr) if err != nil { return ruleList{}, errs.ErrBuildRuleList.FastGenByArgs(fmt.Sprintf(""%s for range {%s, %s}"", err, strings.ToUpper(hex.EncodeToString(p.key)), strings.ToUpper(hex.EncodeToString(endKey)))) } rl.ranges = append(rl.ranges, rangeRules{ startKey: p.key, rules: rr, applyRules: arr, }) } }"; "return rl, nil"].
+  ["var _v1 []splitPoint"; "_v0.iterateRules(func(_v2 *Rule) { _v1 = append(_v1, splitPoint{ typ: tStart, key: _v2.StartKey, rule: _v2, }) if len(_v2.EndKey) > 0 { _v1 = append(_v1, splitPoint{ typ: tEnd, key: _v2.EndKey, rule: _v2, }) } })"; "if len(_v1) == 0 { return ruleList{}, errs.ErrBuildRuleList.FastGenByArgs(""no rule left"") }"; "sort.Slice(_v1, func(_v3, _v4 int) bool { return bytes.Compare(_v1[_v3].key, _v1[_v4].key) < 0 })"; "if len(_v1[0].key) > 0 { return ruleList{}, errs.ErrBuildRuleList.FastGenByArgs(fmt.Sprintf(""no rule for range {%s, %s}"", """", strings.ToUpper(hex.EncodeToString(_v1[0].key)))) }"; "var _v5 ruleList"; "var _v6 sortedRules"; "for _v7, _v8 := range _v1 { switch _v8.typ { case tStart: _v6.insertRule(_v8.rule) case tEnd: _v6.deleteRule(_v8.rule) } if _v7 == len(_v1)-1 || !bytes.Equal(_v8.key, _v1[_v7+1].key) { var _v9 []byte if _v7 != len(_v1)-1 { _v9 = _v1[_v7+1].key } _v10 := _v6.rules if len(_v10) == 0 { return ruleList{}, errs.ErrBuildRuleList.FastGenByArgs(fmt.Sprintf(""no rule for range {%s, %s}"", strings.ToUpper(hex.EncodeToString(_v8.key)), strings.ToUpper(hex.EncodeToString(_v9)))) } if _v7 != len(_v1)-1 { _v10 = append(_v10[:0:0], _v10...) } _v11 := prepareRulesForApply(_v10) _v12 := checkApplyRules(_v11) if _v12 != nil { return ruleList{}, errs.ErrBuildRuleList.FastGenByArgs(fmt.Sprintf(""%s for range {%s, %s}"", _v12, strings.ToUpper(hex.EncodeToString(_v8.key)), strings.ToUpper(hex.EncodeToString(_v9)))) } _v5.ranges = append(_v5.ranges, rangeRules{ startKey: _v8.key, _v0: _v10, applyRules: _v11, }) } }"; "return _v5, nil"].
 Proof. reflexivity. Qed.
 
 Lemma body_ruleList_getSplitKeys_ok : body_ruleList_getSplitKeys =
-  ["var keys [][]byte"; "i := sort.Search(len(rl.ranges), func(i int) bool { return bytes.Compare(rl.ranges[i].startKey, start) > 0 })"; "for ; i < len(rl.ranges) && (len(end) == 0 || bytes.Compare(rl.ranges[i].startKey, end) < 0); i++ { keys = append(keys, rl.ranges[i].startKey) }"; "return keys"].
+  ["var _v3 [][]byte"; "_v4 := sort.Search(len(_v0.ranges), func(_v5 int) bool { return bytes.Compare(_v0.ranges[_v5].startKey, _v1) > 0 })"; "for ; _v4 < len(_v0.ranges) && (len(_v2) == 0 || bytes.Compare(_v0.ranges[_v4].startKey, _v2) < 0); _v4++ { _v3 = append(_v3, _v0.ranges[_v4].startKey) }"; "return _v3"].
 Proof. reflexivity. Qed.
 
 Lemma body_ruleList_getRulesByKey_ok : body_ruleList_getRulesByKey =
-  ["i := sort.Search(len(rl.ranges), func(i int) bool { return bytes.Compare(rl.ranges[i].startKey, key) > 0 })"; "if i == 0 { return nil }"; "return rl.ranges[i-1].rules"].
+  ["_v2 := sort.Search(len(_v0.ranges), func(_v3 int) bool { return bytes.Compare(_v0.ranges[_v3].startKey, _v1) > 0 })"; "if _v2 == 0 { return nil }"; "return _v0.ranges[_v2-1].rules"].
 Proof. reflexivity. Qed.
 
 Lemma body_ruleList_getRulesForApplyRegion_ok : body_ruleList_getRulesForApplyRegion =
-  ["i := sort.Search(len(rl.ranges), func(i int) bool { return bytes.Compare(rl.ranges[i].startKey, start) > 0 })"; "if i == 0 || i != len(rl.ranges) && (len(end) == 0 || bytes.Compare(end, rl.ranges[i].startKey) > 0) { return nil }"; "return rl.ranges[i-1].applyRules"].
+  ["_v3 := sort.Search(len(_v0.ranges), func(_v4 int) bool { return bytes.Compare(_v0.ranges[_v4].startKey, _v1) > 0 })"; "if _v3 == 0 || _v3 != len(_v0.ranges) && (len(_v2) == 0 || bytes.Compare(_v2, _v0.ranges[_v3].startKey) > 0) { return nil }"; "return _v0.ranges[_v3-1].applyRules"].
 Proof. reflexivity. Qed.
 
 Lemma body_ruleConfig_adjust_ok : body_ruleConfig_adjust =
-  ["for id, g := range c.groups { if g.isDefault() { delete(c.groups, id) } }"; "for _, r := range c.rules { g := c.groups[r.GroupID] if g == nil { g = &RuleGroup{ID: r.GroupID} c.groups[r.GroupID] = g } r.group = g }"].
+  ["for _v1, _v2 := range _v0.groups { if _v2.isDefault() { delete(_v0.groups, _v1) } }"; "for _, _v3 := range _v0.rules { _v4 := _v0.groups[_v3.GroupID] if _v4 == nil { _v4 = &RuleGroup{ID: _v3.GroupID} _v0.groups[_v3.GroupID] = _v4 } _v3.group = _v4 }"].
 Proof. reflexivity. Qed.
 
 Lemma body_ruleConfig_getGroup_ok : body_ruleConfig_getGroup =
-  ["if g, ok := c.groups[id]; ok { return g }"; "return &RuleGroup{ID: id}"].
+  ["if _v2, _v3 := _v0.groups[_v1]; _v3 { return _v2 }"; "return &RuleGroup{ID: _v1}"].
 Proof. reflexivity. Qed.
 
 Lemma body_ruleConfig_iterateRules_ok : body_ruleConfig_iterateRules =
-  ["for _, r := range c.rules { f(r) }"].
+  ["for _, _v2 := range _v0.rules { _v1(_v2) }"].
 Proof. reflexivity. Qed.
 
 Lemma body_ruleConfigPatch_setRule_ok : body_ruleConfigPatch_setRule =
-  ["p.mut.rules[r.Key()] = r"].
+  ["_v0.mut.rules[_v1.Key()] = _v1"].
 Proof. reflexivity. Qed.
 
 Lemma body_ruleConfigPatch_deleteRule_ok : body_ruleConfigPatch_deleteRule =
-  ["p.mut.rules[[2]string{group, id}] = nil"].
+  ["_v0.mut.rules[[2]string{_v1, _v2}] = nil"].
 Proof. reflexivity. Qed.
 
 Lemma body_ruleConfigPatch_getGroup_ok : body_ruleConfigPatch_getGroup =
-  ["if g, ok := p.mut.groups[id]; ok { return g }"; "if g, ok := p.c.groups[id]; ok { return g }"; "return &RuleGroup{ID: id}"].
+  ["if _v2, _v3 := _v0.mut.groups[_v1]; _v3 { return _v2 }"; "if _v4, _v5 := _v0.c.groups[_v1]; _v5 { return _v4 }"; "return &RuleGroup{ID: _v1}"].
 Proof. reflexivity. Qed.
 
 Lemma body_ruleConfigPatch_setGroup_ok : body_ruleConfigPatch_setGroup =
-  ["p.mut.groups[g.ID] = g"].
+  ["_v0.mut.groups[_v1.ID] = _v1"].
 Proof. reflexivity. Qed.
 
 Lemma body_ruleConfigPatch_deleteGroup_ok : body_ruleConfigPatch_deleteGroup =
-  ["p.setGroup(&RuleGroup{ID: id})"].
+  ["_v0.setGroup(&RuleGroup{ID: _v1})"].
 Proof. reflexivity. Qed.
 
 Lemma body_ruleConfigPatch_iterateRules_ok : body_ruleConfigPatch_iterateRules =
-  ["for _, r := range p.mut.rules { if r != nil { f(r) } }"; "for _, r := range p.c.rules { if _, ok := p.mut.rules[r.Key()]; !ok { f(r) } }"].
+  ["for _, _v2 := range _v0.mut.rules { if _v2 != nil { _v1(_v2) } }"; "for _, _v3 := range _v0.c.rules { if _, _v4 := _v0.mut.rules[_v3.Key()]; !_v4 { _v1(_v3) } }"].
 Proof. reflexivity. Qed.
 
 Lemma body_ruleConfigPatch_adjust_ok : body_ruleConfigPatch_adjust =
-  ["p.iterateRules(func(r *Rule) { r.group = p.getGroup(r.GroupID) })"].
+  ["_v0.iterateRules(func(_v1 *Rule) { _v1.group = _v0.getGroup(_v1.GroupID) })"].
 Proof. reflexivity. Qed.
 
 Lemma body_ruleConfigPatch_trim_ok : body_ruleConfigPatch_trim =
-  ["for key, rule := range p.mut.rules { if jsonEquals(rule, p.c.getRule(key)) { delete(p.mut.rules, key) } }"; "for id, group := range p.mut.groups { if jsonEquals(group, p.c.getGroup(id)) { delete(p.mut.groups, id) } }"].
+  ["for _v1, _v2 := range _v0.mut.rules { if jsonEquals(_v2, _v0.c.getRule(_v1)) { delete(_v0.mut.rules, _v1) } }"; "for _v3, _v4 := range _v0.mut.groups { if jsonEquals(_v4, _v0.c.getGroup(_v3)) { delete(_v0.mut.groups, _v3) } }"].
 Proof. reflexivity. Qed.
 
 Lemma body_ruleConfigPatch_commit_ok : body_ruleConfigPatch_commit =
-  ["for key, rule := range p.mut.rules { if rule == nil { delete(p.c.rules, key) } else { p.c.rules[key] = rule } }"; "for id, group := range p.mut.groups { p.c.groups[id] = group }"; "p.c.adjust()"].
+  ["for _v1, _v2 := range _v0.mut.rules { if _v2 == nil { delete(_v0.c.rules, _v1) } else { _v0.c.rules[_v1] = _v2 } }"; "for _v3, _v4 := range _v0.mut.groups { _v0.c.groups[_v3] = _v4 }"; "_v0.c.adjust()"].
 Proof. reflexivity. Qed.
 
 Lemma body_jsonEquals_ok : body_jsonEquals =
-  ["aa, _ := json.Marshal(a)"; "bb, _ := json.Marshal(b)"; "return bytes.Equal(aa, bb)"].
+  ["_v2, _ := json.Marshal(_v0)"; "_v3, _ := json.Marshal(_v1)"; "return bytes.Equal(_v2, _v3)"].
 Proof. reflexivity. Qed.
 
 Lemma body_RuleManager_GetAllRules_ok : body_RuleManager_GetAllRules =
-  ["m.RLock()"; "defer m.RUnlock()"; "rules := make([]*Rule, 0, len(m.ruleConfig.rules))"; "for _, r := range m.ruleConfig.rules { rules = append(rules, r) }"; "sortRules(rules)"; "return rules"].
+  ["_v0.RLock()"; "defer _v0.RUnlock()"; "_v1 := make([]*Rule, 0, len(_v0.ruleConfig.rules))"; "for _, _v2 := range _v0.ruleConfig.rules { _v1 = append(_v1, _v2) }"; "sortRules(_v1)"; "return _v1"].
 Proof. reflexivity. Qed.
 
 Lemma body_RuleManager_GetRuleGroups_ok : body_RuleManager_GetRuleGroups =
-  ["m.RLock()"; "defer m.RUnlock()"; "groups := make([]*RuleGroup, 0, len(m.ruleConfig.groups))"; "for _, g := range m.ruleConfig.groups { groups = append(groups, g) }"; "sort.Slice(groups, func(i, j int) bool { return groups[i].Index < groups[j].Index || (groups[i].Index == groups[j].Index && groups[i].ID < groups[j].ID) })"; "return groups"].
+  ["_v0.RLock()"; "defer _v0.RUnlock()"; "_v1 := make([]*RuleGroup, 0, len(_v0.ruleConfig.groups))"; "for _, _v2 := range _v0.ruleConfig.groups { _v1 = append(_v1, _v2) }"; "sort.Slice(_v1, func(_v3, _v4 int) bool { return _v1[_v3].Index < _v1[_v4].Index || (_v1[_v3].Index == _v1[_v4].Index && _v1[_v3].ID < _v1[_v4].ID) })"; "return _v1"].
 Proof. reflexivity. Qed.
 
 Lemma body_RuleManager_GetRulesByKey_ok : body_RuleManager_GetRulesByKey =
-  ["m.RLock()"; "defer m.RUnlock()"; "return m.ruleList.getRulesByKey(key)"].
+  ["_v0.RLock()"; "defer _v0.RUnlock()"; "return _v0.ruleList.getRulesByKey(_v1)"].
 Proof. reflexivity. Qed.
 
 Lemma body_RuleManager_GetRulesForApplyRegion_ok : body_RuleManager_GetRulesForApplyRegion =
-  ["m.RLock()"; "defer m.RUnlock()"; "return m.ruleList.getRulesForApplyRegion(region.GetStartKey(), region.GetEndKey())"].
+  ["_v0.RLock()"; "defer _v0.RUnlock()"; "return _v0.ruleList.getRulesForApplyRegion(_v1.GetStartKey(), _v1.GetEndKey())"].
 Proof. reflexivity. Qed.
 
 Lemma body_RuleManager_GetSplitKeys_ok : body_RuleManager_GetSplitKeys =
-  ["m.RLock()"; "defer m.RUnlock()"; "return m.ruleList.getSplitKeys(start, end)"].
+  ["_v0.RLock()"; "defer _v0.RUnlock()"; "return _v0.ruleList.getSplitKeys(_v1, _v2)"].
 Proof. reflexivity. Qed.
 
 Lemma adjust_rule_checks_ok : adjust_rule_checks =
-  ["err != nil"; "err != nil"; "len(r.EndKey) > 0 && bytes.Compare(r.EndKey, r.StartKey) <= 0"; "err != nil"; "err != nil"; "groupID != r.GroupID"; "r.GroupID == """""; "r.ID == """""; "!validateRole(r.Role)"; "r.Count <= 0"; "r.Role == Leader && r.Count > 1"; "!validateOp(c.Op)"; "len(stores) > 0 && !checkRule(r, stores)"].
+  ["_v3 != nil"; "_v3 != nil"; "len(_v1.EndKey) > 0 && bytes.Compare(_v1.EndKey, _v1.StartKey) <= 0"; "_v3 != nil"; "_v3 != nil"; "_v2 != _v1.GroupID"; "_v1.GroupID == """""; "_v1.ID == """""; "!validateRole(_v1.Role)"; "_v1.Count <= 0"; "_v1.Role == Leader && _v1.Count > 1"; "!validateOp(_v4.Op)"; "len(_v5) > 0 && !checkRule(_v1, _v5)"].
 Proof. reflexivity. Qed.
 
 Lemma default_group_id_ok : default_group_id =
@@ -220,41 +268,41 @@ Lemma minKVRangeLimit_ok : minKVRangeLimit =
 Proof. reflexivity. Qed.
 
 Lemma body_Storage_LoadRangeByPrefix_ok : body_Storage_LoadRangeByPrefix =
-  ["nextKey := prefix"; "endKey := clientv3.GetPrefixRangeEnd(prefix)"; "for { keys, values, err := s.LoadRange(nextKey, endKey, minKVRangeLimit) if err != nil { return err } for i := range keys { f(strings.TrimPrefix(keys[i], prefix), values[i]) } if len(keys) < minKVRangeLimit { return nil } nextKey = keys[len(keys)-1] + ""\x00"" }"].
+  ["_v5 := _v1"; "_v6 := clientv3.GetPrefixRangeEnd(_v1)"; "for { _v7, _v8, _v9 := _v0.LoadRange(_v5, _v6, minKVRangeLimit) if _v9 != nil { return _v9 } for _v10 := range _v7 { _v2(strings.TrimPrefix(_v7[_v10], _v1), _v8[_v10]) } if len(_v7) < minKVRangeLimit { return nil } _v5 = _v7[len(_v7)-1] + ""\x00"" }"].
 Proof. reflexivity. Qed.
 
 Lemma body_memoryKV_LoadRange_ok : body_memoryKV_LoadRange =
-  ["kv.RLock()"; "defer kv.RUnlock()"; "keys := make([]string, 0, limit)"; "values := make([]string, 0, limit)"; "kv.tree.AscendRange(memoryKVItem{key, """"}, memoryKVItem{endKey, """"}, func(item btree.Item) bool { keys = append(keys, item.(memoryKVItem).key) values = append(values, item.(memoryKVItem).value) if limit > 0 { return len(keys) < limit } return true })"; "return keys, values, nil"].
+  ["_v0.RLock()"; "defer _v0.RUnlock()"; "_v4 := make([]string, 0, _v3)"; "_v5 := make([]string, 0, _v3)"; "_v0.tree.AscendRange(memoryKVItem{_v1, """"}, memoryKVItem{_v2, """"}, func(_v6 btree.Item) bool { _v4 = append(_v4, _v6.(memoryKVItem).key) _v5 = append(_v5, _v6.(memoryKVItem).value) if _v3 > 0 { return len(_v4) < _v3 } return true })"; "return _v4, _v5, nil"].
 Proof. reflexivity. Qed.
 
 Lemma body_etcdKVBase_LoadRange_ok : body_etcdKVBase_LoadRange =
-  ["key = strings.Join([]string{kv.rootPath, key}, ""/"")"; "endKey = strings.Join([]string{kv.rootPath, endKey}, ""/"")"; "withRange := clientv3.WithRange(endKey)"; "withLimit := clientv3.WithLimit(int64(limit))"; "resp, err := etcdutil.EtcdKVGet(kv.client, key, withRange, withLimit)"; "if err != nil { return nil, nil, err }"; "keys := make([]string, 0, len(resp.Kvs))"; "values := make([]string, 0, len(resp.Kvs))"; "for _, item := range resp.Kvs { keys = append(keys, strings.TrimPrefix(strings.TrimPrefix(string(item.Key), kv.rootPath), ""/"")) values = append(values, string(item.Value)) }"; "return keys, values, nil"].
+  ["_v1 = strings.Join([]string{_v0.rootPath, _v1}, ""/"")"; "_v2 = strings.Join([]string{_v0.rootPath, _v2}, ""/"")"; "_v4 := clientv3.WithRange(_v2)"; "_v5 := clientv3.WithLimit(int64(_v3))"; "_v6, _v7 := etcdutil.EtcdKVGet(_v0.client, _v1, _v4, _v5)"; "if _v7 != nil { return nil, nil, _v7 }"; "_v8 := make([]string, 0, len(_v6.Kvs))"; "_v9 := make([]string, 0, len(_v6.Kvs))"; "for _, _v10 := range _v6.Kvs { _v8 = append(_v8, strings.TrimPrefix(strings.TrimPrefix(string(_v10.Key), _v0.rootPath), ""/"")) _v9 = append(_v9, string(_v10.Value)) }"; "return _v8, _v9, nil"].
 Proof. reflexivity. Qed.
 
 Lemma load_next_key_ok : load_next_key =
-  [":= prefix"; "= keys[len(keys)-1] + ""\x00"""].
+  [":= _v1"; "= _v7[len(_v7)-1] + ""\x00"""].
 Proof. reflexivity. Qed.
 
 Lemma body_Storage_SaveRule_ok : body_Storage_SaveRule =
-  ["return s.SaveJSON(rulesPath, ruleKey, rule)"].
+  ["return _v0.SaveJSON(rulesPath, _v1, _v2)"].
 Proof. reflexivity. Qed.
 
 Lemma body_Storage_DeleteRule_ok : body_Storage_DeleteRule =
-  ["return s.Remove(path.Join(rulesPath, ruleKey))"].
+  ["return _v0.Remove(path.Join(rulesPath, _v1))"].
 Proof. reflexivity. Qed.
 
 Lemma body_Storage_LoadRules_ok : body_Storage_LoadRules =
-  ["return s.LoadRangeByPrefix(rulesPath+""/"", f)"].
+  ["return _v0.LoadRangeByPrefix(rulesPath+""/"", _v1)"].
 Proof. reflexivity. Qed.
 
 Lemma body_Storage_SaveRuleGroup_ok : body_Storage_SaveRuleGroup =
-  ["return s.SaveJSON(ruleGroupPath, groupID, group)"].
+  ["return _v0.SaveJSON(ruleGroupPath, _v1, _v2)"].
 Proof. reflexivity. Qed.
 
 Lemma body_Storage_DeleteRuleGroup_ok : body_Storage_DeleteRuleGroup =
-  ["return s.Remove(path.Join(ruleGroupPath, groupID))"].
+  ["return _v0.Remove(path.Join(ruleGroupPath, _v1))"].
 Proof. reflexivity. Qed.
 
 Lemma body_Storage_LoadRuleGroups_ok : body_Storage_LoadRuleGroups =
-  ["return s.LoadRangeByPrefix(ruleGroupPath+""/"", f)"].
+  ["return _v0.LoadRangeByPrefix(ruleGroupPath+""/"", _v1)"].
 Proof. reflexivity. Qed.
